@@ -74,6 +74,10 @@ CHECKS = {
          "Exploration: 9 fixed programs x 2 printers x 2 modes x 600 (quick 150) enumerated decision vectors and thousands of random programs, each re-laid-out with random separators from {spaces, tab, newline, CRLF, # comments (also containing %>), nothing}, comment tags between tags, merged and cut silent tags and semicolons; the variant must render exactly what the canonical layout renders (or the same error modulo line numbers).",
          "The re-layout tokenizer understands what model.Printer prints; the stated exceptions (- and . in identifiers, statements starting with ( or [, # directly after <%) are excluded by construction.",
          "DESIGN.md §4 C18"),
+ "C13": ("stateful histories (rapid) over 1-3 generated templates x 8 execution routes (re-exec, fresh parse, clone, cache off / cold / warm, cached object) + exhaustive sweep of harvested templates and hash-literal snippets; metamorphic 'same as first result' oracle incl. helper invocation trace, deep structural hash of the parsed program around every Exec (hook H1)",
+         "Exploration: every harvested template and 9 hash-literal snippets (repeated 30-200 times, since map-order dependence shows with probability < 1) through all 8 routes twice, and thousands of random histories over random all-construct programs with side-effecting hash literals and duplicate keys; every (output, normalised error, helper trace) must equal the first one for that template and the program's structural hash must not change.",
+         "Schedules are sequential (C14 covers concurrency); equal data = same constructors re-run; for over maps excluded as the licensed variation.",
+         "DESIGN.md §4 C13"),
 }
 
 NOT_BUILT = "check not built yet in this session (see DESIGN.md §4 for its plan); will be claimed once its check is committed"
